@@ -2,10 +2,13 @@
 // overlay accessor) over a connection that delivers exactly the given chunks.
 //
 // mode "ops":   line = <chunk,chunk,...> <op> <op> ...   (chunks hex; ops B<hex delim> | R<n>)
-//               out  = D<hex> | E<hex> per op ("-" for empty data)
+//
+//	out  = D<hex> | E<hex> per op ("-" for empty data)
+//
 // mode "upgrade-service" / "upgrade-client": line = <hex frame-without-NUL> <hex payload> <readsize>
-//               a real service / client receives frame+NUL+payload in ONE segment and then reads raw;
-//               out  = the raw bytes seen after the frame (hex), read until len(payload) bytes or EOF
+//
+//	a real service / client receives frame+NUL+payload in ONE segment and then reads raw;
+//	out  = the raw bytes seen after the frame (hex), read until len(payload) bytes or EOF
 package main
 
 import (
